@@ -129,18 +129,20 @@ pub fn or_esets(n: usize, cubes: &[EcubeM]) -> Vec<bool> {
 }
 
 // ---------------------------------------------------------------------------------------------
-// Formula evaluator for the Display output (C16)
-//   or   := xor (" | " xor)*
-//   xor  := term (" ^ " term)*
-//   term := "0" | "1" | lit+
-//   lit  := "!"? "x" digits
+// Formula evaluator for the Display output (C16): the "evident grammar", read liberally
+//   or     := xor ('|' xor)*
+//   xor    := term ('^' term)*
+//   term   := factor+                       (juxtaposition is AND)
+//   factor := '0' | '1' | '!'? 'x' digits   (maximal munch on digits)
+// Blanks are allowed between tokens.  Nothing about spacing or layout is demanded.
 // ---------------------------------------------------------------------------------------------
 
-#[derive(Clone, Debug, PartialEq)]
-pub enum Term {
-    Const(bool),
+/// A product of constants and literals.
+#[derive(Clone, Debug, PartialEq, Default)]
+pub struct Term {
+    pub consts: Vec<bool>,
     /// literals (variable, negated) in printed order
-    Lits(Vec<(usize, bool)>),
+    pub lits: Vec<(usize, bool)>,
 }
 
 #[derive(Clone, Debug, PartialEq)]
@@ -155,73 +157,77 @@ struct P<'a> {
 }
 
 impl<'a> P<'a> {
-    fn starts(&self, s: &str) -> bool {
-        self.b[self.i..].starts_with(s.as_bytes())
+    fn ws(&mut self) {
+        while self.i < self.b.len() && self.b[self.i] == b' ' {
+            self.i += 1;
+        }
+    }
+    fn peek(&mut self) -> Option<u8> {
+        self.ws();
+        self.b.get(self.i).copied()
     }
     fn term(&mut self) -> Result<Term, String> {
-        if self.i >= self.b.len() {
-            return Err("term expected at end of text".into());
-        }
-        let c = self.b[self.i];
-        if c == b'0' || c == b'1' {
-            self.i += 1;
-            // a constant must stand alone
-            if self.i < self.b.len() && self.b[self.i] != b' ' {
-                return Err(format!("constant followed by {:?} at {}", self.b[self.i] as char, self.i));
-            }
-            return Ok(Term::Const(c == b'1'));
-        }
-        let mut lits = Vec::new();
+        let mut t = Term::default();
         loop {
-            let mut neg = false;
-            if self.i < self.b.len() && self.b[self.i] == b'!' {
-                neg = true;
-                self.i += 1;
-            }
-            if self.i >= self.b.len() || self.b[self.i] != b'x' {
-                if neg || lits.is_empty() {
-                    return Err(format!("'x' expected at {}", self.i));
+            match self.peek() {
+                Some(b'0') | Some(b'1') => {
+                    t.consts.push(self.b[self.i] == b'1');
+                    self.i += 1;
                 }
-                break;
-            }
-            self.i += 1;
-            let st = self.i;
-            while self.i < self.b.len() && self.b[self.i].is_ascii_digit() {
-                self.i += 1;
-            }
-            if st == self.i {
-                return Err(format!("variable index expected at {}", st));
-            }
-            let txt = std::str::from_utf8(&self.b[st..self.i]).unwrap();
-            if txt.len() > 1 && txt.starts_with('0') {
-                return Err(format!("variable index with a leading zero at {}", st));
-            }
-            let v: usize = txt.parse().map_err(|_| "bad index".to_string())?;
-            lits.push((v, neg));
-            if self.i >= self.b.len() || (self.b[self.i] != b'x' && self.b[self.i] != b'!') {
-                break;
+                Some(b'!') | Some(b'x') => {
+                    let mut neg = false;
+                    if self.b[self.i] == b'!' {
+                        neg = true;
+                        self.i += 1;
+                        if self.peek() != Some(b'x') {
+                            return Err(format!("'x' expected after '!' at {}", self.i));
+                        }
+                    }
+                    self.i += 1;
+                    let st = self.i;
+                    while self.i < self.b.len() && self.b[self.i].is_ascii_digit() {
+                        self.i += 1;
+                    }
+                    if st == self.i {
+                        return Err(format!("variable index expected at {}", st));
+                    }
+                    let txt = std::str::from_utf8(&self.b[st..self.i]).unwrap();
+                    let v: usize = txt.parse().map_err(|_| format!("bad variable index {:?}", txt))?;
+                    t.lits.push((v, neg));
+                }
+                _ => break,
             }
         }
-        Ok(Term::Lits(lits))
+        if t.consts.is_empty() && t.lits.is_empty() {
+            return Err(format!("a term was expected at {}", self.i));
+        }
+        Ok(t)
     }
     fn xor(&mut self) -> Result<Vec<Term>, String> {
         let mut v = vec![self.term()?];
-        while self.starts(" ^ ") {
-            self.i += 3;
+        while self.peek() == Some(b'^') {
+            self.i += 1;
             v.push(self.term()?);
         }
         Ok(v)
     }
     fn or(&mut self) -> Result<Formula, String> {
         let mut v = vec![self.xor()?];
-        while self.starts(" | ") {
-            self.i += 3;
+        while self.peek() == Some(b'|') {
+            self.i += 1;
             v.push(self.xor()?);
         }
+        self.ws();
         if self.i != self.b.len() {
             return Err(format!("unexpected {:?} at {}", self.b[self.i] as char, self.i));
         }
         Ok(Formula { ors: v })
+    }
+}
+
+impl Term {
+    pub fn eval(&self, m: u64) -> bool {
+        self.consts.iter().all(|c| *c) && self.lits.iter().all(|(v, neg)| *v < 64 && ((m >> v) % 2 == 1) != *neg)
     }
 }
 
@@ -234,44 +240,20 @@ impl Formula {
         p.or()
     }
     pub fn eval(&self, m: u64) -> bool {
-        self.ors.iter().any(|x| {
-            x.iter()
-                .map(|t| match t {
-                    Term::Const(b) => *b,
-                    Term::Lits(l) => l.iter().all(|(v, neg)| ((m >> v) % 2 == 1) != *neg),
-                })
-                .fold(false, |a, b| a != b)
-        })
-    }
-    pub fn max_var(&self) -> Option<usize> {
         self.ors
             .iter()
-            .flatten()
-            .filter_map(|t| match t {
-                Term::Lits(l) => l.iter().map(|(v, _)| *v).max(),
-                _ => None,
-            })
-            .max()
+            .any(|x| x.iter().map(|t| t.eval(m)).fold(false, |a, b| a != b))
     }
-    /// variable indices strictly increasing inside every AND term (a variable may appear once)
+    pub fn max_var(&self) -> Option<usize> {
+        self.ors.iter().flatten().flat_map(|t| t.lits.iter().map(|(v, _)| *v)).max()
+    }
+    /// variable indices strictly increasing inside every AND term
     pub fn cube_terms_increasing(&self) -> bool {
-        self.ors.iter().flatten().all(|t| match t {
-            Term::Lits(l) => l.windows(2).all(|w| w[0].0 < w[1].0),
-            _ => true,
-        })
+        self.ors.iter().flatten().all(|t| t.lits.windows(2).all(|w| w[0].0 < w[1].0))
     }
-    /// for an exclusive cube: single-variable positive terms with strictly increasing indices
-    pub fn xor_vars_increasing(&self) -> bool {
-        self.ors.iter().all(|x| {
-            let vars: Vec<usize> = x
-                .iter()
-                .filter_map(|t| match t {
-                    Term::Lits(l) if l.len() == 1 => Some(l[0].0),
-                    _ => None,
-                })
-                .collect();
-            vars.windows(2).all(|w| w[0] < w[1])
-        })
+    /// variable indices in printed order inside XOR group k
+    pub fn group_vars(&self, k: usize) -> Vec<usize> {
+        self.ors[k].iter().flat_map(|t| t.lits.iter().map(|(v, _)| *v)).collect()
     }
 }
 
@@ -285,11 +267,13 @@ mod tests {
         assert!(f.eval(0b001));
         assert!(f.eval(0b000)); // x2 ^ 1 with x2 = 0
         assert!(!f.eval(0b110));
-        assert!(Formula::parse("x1 ^x2").is_err());
-        assert!(Formula::parse("x1x10").unwrap().ors[0][0] == Term::Lits(vec![(1, false), (10, false)]));
+        assert!(Formula::parse("x1 ^x2").is_ok());
+        assert_eq!(Formula::parse("x1x10").unwrap().ors[0][0].lits, vec![(1, false), (10, false)]);
         assert!(Formula::parse("").is_err());
         assert!(Formula::parse("x").is_err());
-        assert!(Formula::parse("1x0").is_err());
+        assert!(Formula::parse("x1 ^").is_err());
+        assert!(Formula::parse("x1 & x2").is_err());
+        assert!(Formula::parse("1x0").unwrap().eval(1));
         let c = CubeM::new(0b01, 0b10);
         assert!(c.sat(0b01) && !c.sat(0b11) && !c.sat(0));
         assert!(CubeM::new(1, 1).contradictory());
